@@ -285,3 +285,154 @@ Qed.
 (* ... and both witnesses are rejected in the strict mode *)
 Example strict_rejects_witnesses : w_unm strict_mode 7 w_bits = None /\ w_unm strict_mode 7 w_lf = None.
 Proof. vm_compute. split; reflexivity. Qed.
+
+(* ---- the cookie path ---------------------------------------------------------------------------- *)
+(* [sub a b]: a occurs in b as a contiguous substring *)
+Definition sub (a b : str) : Prop := exists pre post, b = pre ++ a ++ post.
+
+Lemma sub_refl a : sub a a.
+Proof. exists [], []. rewrite app_nil_r. reflexivity. Qed.
+
+Lemma sub_trans a b c : sub a b -> sub b c -> sub a c.
+Proof.
+  intros [p1 [q1 ->]] [p2 [q2 ->]]. exists (p2 ++ p1), (q1 ++ q2). rewrite !app_assoc. reflexivity.
+Qed.
+
+Lemma sub_cons a c b : sub a b -> sub a (c :: b).
+Proof. intros [p [q ->]]. exists (c :: p), q. reflexivity. Qed.
+
+Lemma trim_left_sub s : sub (trim_left s) s.
+Proof.
+  induction s as [|c s IH]; cbn [trim_left]; [apply sub_refl|].
+  destruct (is_ows c); [apply sub_cons; exact IH | apply sub_refl].
+Qed.
+
+Lemma trim_right_prefix s : exists post, s = trim_right s ++ post.
+Proof.
+  induction s as [|c s [post IH]]; cbn [trim_right]; [exists []; reflexivity|].
+  destruct (trim_right s) as [|x r] eqn:E.
+  - destruct (is_ows c); [exists (c :: s); reflexivity | exists s; reflexivity].
+  - exists post. cbn [app]. f_equal. exact IH.
+Qed.
+
+Lemma trim_sub s : sub (trim s) s.
+Proof.
+  unfold trim. apply sub_trans with (trim_left s); [|apply trim_left_sub].
+  destruct (trim_right_prefix (trim_left s)) as [post H]. exists [], post. exact H.
+Qed.
+
+Lemma split_on_sub sep s :
+  (forall x r, split_on sep s = x :: r -> exists post, s = x ++ post) /\
+  (forall p, In p (split_on sep s) -> sub p s).
+Proof.
+  induction s as [|c s [IH1 IH2]]; cbn [split_on].
+  - split; [intros x r H; inversion H; subst; exists []; reflexivity|].
+    intros p [<-|[]]. apply sub_refl.
+  - destruct (c =? sep) eqn:Ec.
+    + split; [intros x r H; inversion H; subst; exists (c :: s); reflexivity|].
+      intros p [<-|H]; [exists [], (c :: s); reflexivity | apply sub_cons, IH2, H].
+    + destruct (split_on sep s) as [|x r] eqn:Es.
+      * split; [intros x r H; inversion H; subst; exists s; reflexivity|].
+        intros p [<-|[]]. exists [], s. reflexivity.
+      * destruct (IH1 x r eq_refl) as [post Hp]. split.
+        -- intros x' r' H; inversion H; subst x' r'. exists post. cbn [app]. f_equal. exact Hp.
+        -- intros p [<-|H].
+           ++ exists [], post. cbn [app]. f_equal. exact Hp.
+           ++ apply sub_cons, IH2. right; exact H.
+Qed.
+
+Lemma cut_at_sub sep s a b : cut_at sep s = (a, b) -> sub b s.
+Proof.
+  revert a b. induction s as [|c s IH]; intros a b H; cbn [cut_at] in H.
+  - inversion H; subst. apply sub_refl.
+  - destruct (c =? sep).
+    + inversion H; subst. exists [c], []. rewrite app_nil_r. reflexivity.
+    + destruct (cut_at sep s) as [a' b'] eqn:E. inversion H; subst. apply sub_cons. eapply IH; reflexivity.
+Qed.
+
+Lemma strip_quotes_sub raw : sub (strip_quotes raw) raw.
+Proof.
+  unfold strip_quotes. destruct raw as [|c r]; [apply sub_refl|].
+  destruct (rev r) as [|d m] eqn:Er; [apply sub_refl|].
+  destruct ((c =? 34) && (d =? 34)) eqn:E; [|apply sub_refl].
+  apply andb_true_iff in E as [Ec Ed]. apply N.eqb_eq in Ec, Ed. subst c d.
+  exists [34], [34]. rewrite <- (rev_involutive r), Er. cbn [rev app]. reflexivity.
+Qed.
+
+Lemma cookie_of_part_sub name part v : cookie_of_part name part = Some v -> sub v part.
+Proof.
+  unfold cookie_of_part. pose proof (trim_sub part) as Ht. destruct (trim part) as [|c p] eqn:E; [discriminate|].
+  destruct (cut_at 61 (c :: p)) as [nm val] eqn:Ec. destruct (str_eqb (trim nm) name); [|discriminate].
+  unfold parse_cookie_value. destruct (forallb valid_cookie_value_byte (strip_quotes val)); [|discriminate].
+  intros H; inversion H; subst v.
+  eapply sub_trans; [apply strip_quotes_sub|]. eapply sub_trans; [eapply cut_at_sub; exact Ec | exact Ht].
+Qed.
+
+Lemma first_some_inv {A B} (f : A -> option B) l y :
+  first_some f l = Some y -> exists x, In x l /\ f x = Some y.
+Proof.
+  induction l as [|x l IH]; cbn [first_some]; [discriminate|].
+  destruct (f x) as [z|] eqn:E.
+  - intros H; inversion H; subst. exists x; split; [left; reflexivity | exact E].
+  - intros H. destruct (IH H) as [x' [Hin Hx]]. exists x'; split; [right; exact Hin | exact Hx].
+Qed.
+
+(* The value LoadSession hands to Unmarshal is, byte for byte, a contiguous piece of one of the
+   Cookie header lines, made of valid cookie-value bytes: nothing is decoded, folded or joined. *)
+Theorem cookie_lookup_sub name lines cv :
+  cookie_lookup name lines = Some cv ->
+  (exists line, In line lines /\ sub cv line) /\ forallb valid_cookie_value_byte cv = true.
+Proof.
+  unfold cookie_lookup. intros H. apply first_some_inv in H as [part [Hin Hp]]. split.
+  - apply in_flat_map in Hin as [line [Hl Hs]]. exists line. split; [exact Hl|].
+    eapply sub_trans; [eapply cookie_of_part_sub; exact Hp|].
+    eapply sub_trans; [apply (proj2 (split_on_sub 59 (trim line))); exact Hs | apply trim_sub].
+  - unfold cookie_of_part in Hp. destruct (trim part) as [|c p]; [discriminate|].
+    destruct (cut_at 61 (c :: p)) as [nm val]. destruct (str_eqb (trim nm) name); [|discriminate].
+    unfold parse_cookie_value in Hp.
+    destruct (forallb valid_cookie_value_byte (strip_quotes val)) eqn:E; [|discriminate].
+    inversion Hp; subst. exact E.
+Qed.
+
+Section LoadProofs.
+  Context {K V : Type}.
+  Variable A : ideal_aead K.
+  Variable codec : V -> str.
+  Variable uncodec : str -> option V.
+  Hypothesis codec_left : forall v, uncodec (codec v) = Some v.
+
+  (* LoadSession returns a session only for a request one of whose Cookie lines literally contains
+     a Marshal output under the store's key (strict mode), and returns the value sealed in it *)
+  Theorem load_session_canonical m k name lines v :
+    m_strict m = true -> m_nocrlf m = true ->
+    load_session (open A) uncodec m k name lines = LSession v ->
+    exists n p line, length n = 16%nat /\ In line lines /\
+      sub (b64url_encode (encrypt (seal A) k n p)) line /\ uncodec p = Some v /\
+      (forall v', p = codec v' -> v' = v).
+  Proof.
+    intros Hs Hc. unfold load_session. destruct (cookie_lookup name lines) as [cv|] eqn:El; [|discriminate].
+    destruct (unmarshal (open A) uncodec m k cv) as [w|] eqn:Eu; [|discriminate].
+    intros H; inversion H; subst w.
+    destruct (canonical_strict A codec uncodec codec_left m k cv v Hs Hc Eu) as [n [p [Hn [-> [Hu Hv]]]]].
+    destruct (cookie_lookup_sub name lines _ El) as [[line [Hin Hsub]] _].
+    exists n, p, line. repeat split; auto.
+  Qed.
+
+  (* and the cookie carrying exactly a genuine string does load (round trip through the cookie path) *)
+  Theorem load_session_roundtrip m k name n v :
+    length n = 16%nat -> bytes_ok (encrypt (seal A) k n (codec v)) ->
+    cookie_lookup name [name ++ 61 :: marshal (seal A) codec k n v] = Some (marshal (seal A) codec k n v) ->
+    load_session (open A) uncodec m k name [name ++ 61 :: marshal (seal A) codec k n v] = LSession v.
+  Proof.
+    intros Hn Hb Hl. unfold load_session. rewrite Hl.
+    rewrite (roundtrip A codec uncodec codec_left m k n v Hn Hb). reflexivity.
+  Qed.
+End LoadProofs.
+
+Definition w_cookie_name : str := [95; 115; 115; 111].   (* "_sso" *)
+Example cookie_lookup_nv :
+  cookie_lookup w_cookie_name [[120; 61; 49; 59; 32] ++ w_cookie_name ++ [61] ++ w_genuine] = Some w_genuine /\
+  cookie_lookup w_cookie_name [w_cookie_name ++ [61; 34] ++ w_genuine ++ [34]] = Some w_genuine /\   (* quoted *)
+  cookie_lookup w_cookie_name [w_cookie_name ++ [61; 37; 53; 54] ++ tl w_genuine] <> Some w_genuine /\ (* %56... *)
+  cookie_lookup w_cookie_name [w_cookie_name ++ [61] ++ w_genuine ++ [128]] = None.                    (* invalid byte *)
+Proof. vm_compute. repeat split; try reflexivity. discriminate. Qed.
